@@ -55,8 +55,10 @@ def main():
         sh(['git', '-C', '/repo', 'worktree', 'prune'])
     out = os.path.join(ROOT, 'seeded', sid)
     os.makedirs(out, exist_ok=True)
-    shutil.copy(patch, os.path.join(out, 'patch.diff'))
-    shutil.copy(demo, os.path.join(out, 'demo.py'))
+    for src, name in ((patch, 'patch.diff'), (demo, 'demo.py')):
+        dst = os.path.join(out, name)
+        if os.path.abspath(src) != os.path.abspath(dst):
+            shutil.copy(src, dst)
     json.dump(meta, open(os.path.join(out, 'meta.json'), 'w'), indent=1)
     print(json.dumps({k: meta.get(k) for k in ('id', 'patch_applies', 'imports', 'demo_exit_with_change', 'demo_exit_on_repo',
                                                 'suite_passes_with_change', 'suite_summary', 'caught_by')}, indent=1))
